@@ -58,7 +58,7 @@ def track_trace(sc):
     work = tlc.scratch("lv_trk_")
     sub = sc["subgrid"] or [1, sc["imax"] - 1, 1, sc["jmax"] - 1]
     i0, i1, j0, j1 = sub
-    ev = [dict(ev="setup", dt=sc["dt"], dx=sc["dx"], dy=sc["dy"], adv=sc["adv"], s16=sc["s16"], sz16=sc["sz16"], vadv=sc["vadv"],
+    ev = [dict(ev="setup", nst=len(sc["steps"]), dt=sc["dt"], dx=sc["dx"], dy=sc["dy"], adv=sc["adv"], s16=sc["s16"], sz16=sc["sz16"], vadv=sc["vadv"],
                grid=dict(i0=i0, i1=i1, j0=j0, j1=j1, mask=[r[i0:i1] for r in sc["M"][j0:j1]],
                          H=[[h * QZ for h in r[i0:i1]] for r in sc["H"][j0:j1]]))]
     try:
@@ -84,7 +84,7 @@ def track_trace(sc):
             z, o3 = lat(state.Z, QZ)
             return dict(x=x, y=y, z=z, alive=[bool(a) for a in state.alive], active=[bool(a) for a in state.active]), (o1 or o2 or o3)
 
-        for st in sc["steps"]:
+        for kst, st in enumerate(sc["steps"]):
             n = len(state)
             force.u = np.array(st["un"][:n], float) / 128.0
             force.v = np.array(st["vn"][:n], float) / 128.0
@@ -94,7 +94,7 @@ def track_trace(sc):
             c0 = len(rng.calls)
             tr.update()
             post, o2 = snap()
-            ev.append(dict(ev="tstep", pre=pre, post=post, un=st["un"][:n], vn=st["vn"][:n], wn=st["wn"][:n],
+            ev.append(dict(ev="tstep", k=kst + 1, pre=pre, post=post, un=st["un"][:n], vn=st["vn"][:n], wn=st["wn"][:n],
                            draws=rng.given[k0:], calls=rng.calls[c0:], off=bool(o1 or o2)))
     except SystemExit as e:
         ev.append(dict(ev="crash", what=f"SystemExit({e.code})"))
